@@ -1,6 +1,8 @@
 PROPERTY = 'C14'
 _F = ['pywbem_mock._mainprovider:MainProvider._pull_response', 'pywbem_mock._mainprovider:MainProvider._open_response',
-      'pywbem_mock._mainprovider:MainProvider.CloseEnumeration']
+      'pywbem_mock._mainprovider:MainProvider.CloseEnumeration',
+      'pywbem._cim_operations:WBEMConnection._get_rslt_params', 'pywbem._cim_operations:_validate_context',
+      'pywbem._cim_operations:_validate_MaxObjectCount_OpenPull']
 HARNESSES = [
     dict(name='H1-pull-step', engine='crosshair', module='c14_pull', function='pull_step', reach='pull_step_reach',
          functions=_F[:1], stubs=['_format -> constant', 'namespace validation -> boolean ns_ok'],
@@ -14,12 +16,19 @@ HARNESSES = [
          functions=_F[2:3], stubs=['_format -> constant'],
          bounds='0..3 contexts, context id in/out of table, pull disabled or not',
          quick=dict(timeout=60), thorough=dict(timeout=300)),
+    dict(name='H2-client-step', engine='crosshair', module='c14_pull', function='client_step', reach='client_step_reach',
+         functions=_F[3:6], stubs=['_format -> constant'],
+         bounds='open/pull reply with EndOfSequence absent or one of 8 spellings, EnumerationContext absent / NULL / any string len<=3, '
+                '0..3 objects, all 6 orders of the three reply items, namespace any string len<=3; MaxObjectCount any int or None (unbounded); 5 malformed context shapes',
+         quick=dict(timeout=90, parts=6), thorough=dict(timeout=300, parts=6)),
 ]
 CLAIM = dict(
     technique='bounded symbolic execution (CrossHair/z3) of the real server-side pull step from an arbitrary context-table state (inductive step)',
     text='One Open/Pull/Close step of the real MainProvider code is executed symbolically from an arbitrary context table '
          '(remaining objects 1..8, MaxObjectCount unbounded, any pull type, own/foreign/stale context, namespace gone or not); '
          'every feasible path is explored and the post-state is compared with the sequence semantics of the property. '
-         'Because the step preserves the representation invariant it covers sessions of any length.',
+         'Because the step preserves the representation invariant it covers sessions of any length. '
+         'H2 does the same for the client half: the real _get_rslt_params/_validate_context/_validate_MaxObjectCount_OpenPull '
+         'on every reply shape (eos, context and objects are handed to the caller exactly as sent; context dropped iff eos).',
     note='Trusted: CrossHair/z3; _format stubbed; namespace validation and context-id generation replaced by stubs; '
          'bounds as listed per harness in the evidence; counterexamples are replayed natively before being reported.')
